@@ -77,6 +77,25 @@ CHECKS.update({
             "'Keeps injecting' is restated as bounded progress in ticks; with injected dependency errors only the final clause is judged (errors may delay, not suppress).", "DESIGN.md §4 C15"),
 })
 
+
+CHECKS.update({
+    "C02": ("exploration", "runtime monitor: model Agglayer evaluating its acceptance checks on every certificate received from the real AggSender, conservation / exactly-once oracle over the settled chain, bounded-progress monitor; small step sequences exhaustively",
+            "The real AggSender (real storage, status checker, PP flow and aggchain-prover flow, queries, signer) runs tick by tick (real select arms, verif-tag step hooks) over real L2 bridge / L1 info stores against a model Agglayer that rejects like the real one and records every failed acceptance check (nothing undecided, height = settled+1, previous exit root, first block, replacement keeps first block). All step sequences of depth 3 (quick) / 5 (thorough) over {L2 events, epoch, status, advance, inError, failBefore, failAfter, settle} and PRNG walks x RetryCertAfterInError x MaxCertSize x flow. At every settlement the settled certificates must cover the processed blocks without gap or overlap and carry every bridge / claim exactly once in chain order; without faults 6 rounds of ticks must certify everything. One defect class (SendCertificate response lost, node keeps no record) is a known finding.",
+            "Liveness restated as bounded progress in ticks; with a size limit progress is not judged (empty-prefix livelock is outside the statement); the model Agglayer is an executable reading of the Agglayer's documented checks.", "DESIGN.md §4 C02"),
+    "C03": ("exploration", "runtime monitor: per-certificate content oracle in the model Agglayer (block range from the metadata vs the reference L2 history, field by field, exit root recomputed with the reference frontier)",
+            "Every certificate received from the real AggSender (PP and aggchain-prover flow, with prover-shortened ranges, size limits, retries after InError) is compared with the reference L2 history for the block range its metadata names: bridge exits and imported exits equal the bridges / claims of exactly those blocks field by field and in chain order, metadata hashes, amounts and addresses unchanged, and appending the reference exit hashes to the tree with root prevLER gives newLER.",
+            "Claims are generated against finalized L1 info leaves; unclaimable claims are C09's subject.", "DESIGN.md §4 C03"),
+    "C09": ("exploration", "runtime monitor: every imported exit of every received certificate verified like the Agglayer would (reference Merkle verifier bottom-up to the named L1 info root, leaf count, finality)",
+            "For every imported bridge exit of every certificate received by the model Agglayer: exit hash + proof reaches the mainnet exit root (or local exit root and from there the rollup exit root) of the enclosed L1 leaf, that leaf is the one the claim was made against, leaf + proof reaches the named L1 info root, all imported exits name the same root, l1_info_tree_leaf_count belongs to that root and the root is finalized on L1 (the reference L1 history knows finality).",
+            "The reference verifier is the one C08 cross-checks against the L1 contract's verifyMerkleProof.", "DESIGN.md §4 C09"),
+    "C10": ("exploration", "runtime monitor: commitment recomputed independently from the received certificate / from the protobuf message captured behind the real gRPC client / from the stored JSON, recording signer; single-field perturbation sweep",
+            "Certificates built, signed, submitted and stored by the real flows (PP and aggchain-prover flow with a recording signer) in walks with failed submissions and InError retries: the hash handed to the signer equals the commitment recomputed from what was sent, the signature recovers to the signer over it, the wire message of the real gRPC client and the node's stored copy carry every covered field unchanged. PRNG certificates (0-20 exits, 0-10 imported exits, both claim kinds, nil amounts, empty metadata): wire / JSON comparison and a single-field perturbation of every covered field must change the commitment / identity that covers it.",
+            "Commitment formulas are re-implemented from the interop specification (PP: new LER + global indexes; FEP: + imported exit hashes, height, aggchain params).", "DESIGN.md §4 C10"),
+    "C13": ("fault_enumeration", "runtime monitor: process-death points and database loss injected into the real AggSender against the model Agglayer, post-restart reconciliation oracle; statement-level fault enumeration on the real certificate storage through a wrapping database/sql driver",
+            "All sequences of depth 3 (quick) / 4 (thorough) over {L2 events, epoch, status, inError, settle, restart, death before submit / after the Agglayer recorded the certificate / at the next Agglayer call, database deleted} after three prefixes, PRNG walks (also: epoch tick with the k-th storage statement failing then restart, stale database copy, Agglayer forgets / re-identifies its last certificate) x retry x history x flow. After every restart without contradiction the node must not refuse and its last record must be the Agglayer's last certificate; the next certificate must pass the height / previous-root / first-block checks; constructed contradictions must be refused; never two rows per height; a failed write removes no record. Storage plane: every statement and the commit of every write transaction fails once (also by cancellation): failed => fingerprint unchanged, succeeded => complete new state. Two genuine defects found and repaired.",
+            "Process death = abandoning the node's objects and rebuilding on the same files; start-up reconciliation gets 4 rounds of recovery queries.", "DESIGN.md §4 C13"),
+})
+
 # properties not (yet) claimed: reason
 NOT_APPLICABLE = {
 }
